@@ -106,6 +106,12 @@ Strict(e, f0, f1) ==
 
 Verdict(e) ==
   IF Has(e, "panic") THEN [key |-> "panic", info |-> e.panic]
+  ELSE IF /\ Len(e.w1[1]) = 0 /\ e.w1[2] = <<"The font is not really seven-bit-safe!">>
+          /\ IsFont(e.f0) /\ Shaped(e.f0) /\ SbsOf(e.f0) /\ SevenBitSafe(e.f0)
+       THEN \* the font claims to be seven-bit safe, it is (PLtoTF 110-112 as TfmCanon!SevenBitSafe transcribes it), and
+            \* the way back says it is not: a warning about a warning-free font (a false claim is outside the
+            \* quantifier and falls through to skip-warnings)
+            [key |-> "spurious-seven-bit-warning", info |-> <<>>]
   ELSE IF NWarn(e, "w1") > 0 THEN [key |-> "skip-warnings", info |-> <<>>]
   ELSE IF ~IsFont(e.f0) THEN [key |-> "skip-unreadable", info |-> <<>>]
   ELSE IF ~Has(e, "f1") \/ ~IsFont(e.f1) \/ ~Has(e, "eq") THEN [key |-> "no-output", info |-> <<>>]
